@@ -260,7 +260,7 @@ def check(ctx, case):
                 entries.append({"key": list(k), "isdir": True, "hash": None, "loaded": True})
     mq = []
     for q in queries:
-        if q["q"] in ("info", "view_prefix"):
+        if q["q"] == "info":
             mq.append({"q": "get", "key": q["key"]})
         else:
             mq.append(q)
@@ -270,10 +270,11 @@ def check(ctx, case):
         return
     impl_view, model_view = [], []
     for q, a, m in zip(queries, impl_l, ans["results"]):
-        if q["q"] in ("info", "view_prefix"):
-            # info() of a missing key below a loaded directory raises KeyError, of an implicit node says "directory";
-            # a view under a prefix is compared lazy against expanded only
+        if q["q"] == "info":
+            # info() of a missing key below a loaded directory raises KeyError, of an implicit node says "directory"
             continue
+        if q["q"] == "view_prefix" and a == "KeyError":
+            a = []  # a prefix under which nothing exists: the traversal raises, the model yields nothing
         if q["q"] == "get" and a == "KeyError" and m == "KeyError":
             continue
         impl_view.append([q["q"], a])
